@@ -259,6 +259,11 @@ def ipca(B, U_a, l_a, n_a, m_a=None, f=1.0, eps=1e-10, centred=None):
     # root them to obtain singular values of the original data.
     s_a = np.sqrt((n_a - 1) * l_a)
 
+    # the update is carried out in the precision of the model being updated:
+    # new data of a narrower type (single precision samples fed to a double
+    # precision model) would otherwise round the new mean and spectrum
+    B = np.asarray(B, dtype=np.result_type(B.dtype, U_a.dtype))
+
     # obtain number of dimensions and number of samples of new data.
     n_b, d = B.shape
     # multiply the number of samples of the original data by the forgetting
